@@ -171,6 +171,11 @@ func rwApply(w *rwWorld, o rwOp) {
 			w.gates.arm("receiver.handoff")
 			w.gateArmed = true
 		}
+		if len(o.Tasks) > 512 {
+			w.classes["one_source_batch_with_more_than_512_tasks"]++
+		} else if len(o.Tasks) >= 100 {
+			w.classes["one_source_batch_with_100_to_512_tasks"]++
+		}
 		w.emit(o)
 	case "ungate":
 		w.openGate()
@@ -246,8 +251,24 @@ func rwApply(w *rwWorld, o rwOp) {
 			i := o.I % len(w.sources)
 			if w.liveS(i) == nil {
 				w.open("S", i)
-				// Temporal resumes from the level it was last acknowledged
-				w.reemit(i, w.sources[i].maxLowSeen)
+				// Temporal resumes from the level it was last acknowledged; with N > 0 the last N distinct acknowledgement
+				// levels the proxy had sent were lost together with the broken stream (sent, never processed by the source)
+				from := w.sources[i].maxLowSeen
+				if o.N > 0 {
+					var lows []int64
+					for _, a := range w.sources[i].acks {
+						if len(lows) == 0 || a.low > lows[len(lows)-1] {
+							lows = append(lows, a.low)
+						}
+					}
+					from = 0
+					if k := len(lows) - 1 - o.N; k >= 0 {
+						from = lows[k]
+					}
+					w.classes["source_resumes_below_the_last_level_it_was_sent"]++
+				}
+				w.classes["source_stream_re_established"]++
+				w.reemit(i, from)
 			}
 		}
 	case "break":
@@ -710,6 +731,26 @@ func rwGenCase(t *rapid.T, faults bool) rwCase {
 		pos := rapid.IntRange(0, len(c.Ops)).Draw(t, "lsPos")
 		c.Ops = append(append(append([]rwOp{}, c.Ops[:pos]...), long...), c.Ops[pos:]...)
 	}
+	if !faults && rapid.IntRange(0, 19).Draw(t, "hugeBatch") == 0 {
+		// rare: ONE source batch with hundreds of tasks (around 512 and 1024, the sizes at which a sender might cut a
+		// message in pieces or a table might grow in the middle of a batch), mostly for one target, optionally every
+		// seventh task for the next target; the target then confirms everything
+		src, tg := rapid.IntRange(0, c.NS-1).Draw(t, "hbSrc"), rapid.IntRange(0, c.NT-1).Draw(t, "hbTgt")
+		n := rapid.SampledFrom([]int{100, 511, 512, 513, 600, 1024, 1025, 1100}).Draw(t, "hbN")
+		spread := rapid.Bool().Draw(t, "hbSpread")
+		var ts []rwTaskSpec
+		for x := 0; x < n; x++ {
+			sp := rwTaskSpec{Target: tg, Variant: x % 3}
+			if spread && x%7 == 6 {
+				sp.Target = (tg + 1) % c.NT
+			}
+			ts = append(ts, sp)
+		}
+		huge := []rwOp{{K: "connect", Side: "T", I: tg}, {K: "emit", I: src, Tasks: ts, HighGap: rapid.IntRange(0, 2).Draw(t, "hbHG")},
+			{K: "finish", I: tg, N: rapid.IntRange(1, n).Draw(t, "hbFin1")}, {K: "ack", I: tg}, {K: "finish", I: tg, N: n}, {K: "ack", I: tg}}
+		pos := rapid.IntRange(0, len(c.Ops)).Draw(t, "hbPos")
+		c.Ops = append(append(append([]rwOp{}, c.Ops[:pos]...), huge...), c.Ops[pos:]...)
+	}
 	if lateSrc >= 0 {
 		pos := rapid.IntRange(0, len(c.Ops)).Draw(t, "lateSPos")
 		c.Ops = append(append(append([]rwOp{}, c.Ops[:pos]...), rwOp{K: "connect", Side: "S", I: lateSrc}), c.Ops[pos:]...)
@@ -922,6 +963,20 @@ func TestVF_C03_Rapid(t *testing.T) {
 				burst = append(burst, rwOp{K: "unstall", Side: "T", I: j})
 			}
 			c.Ops = append(append(append([]rwOp{}, c.Ops[:pos]...), burst...), c.Ops[pos:]...)
+		}
+		// a source stream is re-established while the target streams stay up (the source missed some acknowledgements and
+		// resumes from the level it was last sent): the statement's clauses are per source-shard stream, and the liveness
+		// clause must hold for the stream that is open at the end
+		if c.Nodes <= 1 && rapid.IntRange(0, 3).Draw(rt, "srcReconnect") == 0 {
+			i := rapid.IntRange(0, c.NS-1).Draw(rt, "srS")
+			pos := rapid.IntRange(0, len(c.Ops)).Draw(rt, "srPos")
+			gap := rapid.IntRange(0, 3).Draw(rt, "srGap")
+			ins := []rwOp{{K: "break", Side: "S", I: i, How: rapid.SampledFrom([]string{"cancel", "recvEOF", "recvErr", "sendErr"}).Draw(rt, "srHow")}}
+			for k := 0; k < gap; k++ {
+				ins = append(ins, rwOp{K: "advance", N: rapid.SampledFrom([]int{1, 100, 1000, 3000}).Draw(rt, "srMs")})
+			}
+			ins = append(ins, rwOp{K: "connect", Side: "S", I: i, N: rapid.SampledFrom([]int{0, 0, 1, 2, 5}).Draw(rt, "srLost")})
+			c.Ops = append(append(append([]rwOp{}, c.Ops[:pos]...), ins...), c.Ops[pos:]...)
 		}
 		run(rt, c)
 	})
